@@ -7,7 +7,9 @@ the callback-carrying builtins of object/list.go and builtins/builtins.go) as it
 
 * a *program shape* `Prog` abstracts a script to what matters for cancellation: terminating
   compute, unbounded compute loops, blocking primitives, builtins that call a script
-  function back on the same VM, and `go`/`spawn`;
+  function back on the same VM — the callback builtins of the repository, and host-provided
+  builtins that hand the callback a context of their own making (`Wrap.host`: one cancelled
+  with the run's, or a detached one) —, and `go`/`spawn`;
 * a *thread* is one goroutine running script code on its own VM (the main thread on the VM
   that `Run`/`Call` started, every spawned thread on a clone): the VM's `halt` flag, whether
   `start()` armed a context watcher for it, what it is doing, and the stack of builtin
@@ -31,18 +33,39 @@ inductive Prim where
   | wait   -- Thread.Wait                   : returns Errorf("wait error: %s", ctx.Err())
   deriving DecidableEq, Repr, Inhabited
 
+/-- The context a builtin hands to `callFunction` (through the public callback API,
+    `object.GetCallFunc(ctx)`) for the callback it runs, relative to the context the
+    evaluation was started with (the one the watcher of `start()` waits on).  `eval` receives
+    THIS context, and `ctx.Err()` in its halt test is the error of THIS context. -/
+inductive Cc where
+  | follows   -- the caller's own ctx or one cancelled with it (child `WithCancel`, `WithValue`):
+              -- it reports an error as soon as the run's context has fired
+  | detached  -- carries the VM's values (call function, OS, …) but is NOT cancelled with the
+              -- run: `context.WithoutCancel(ctx)`, `context.Background()` + the values copied
+  deriving DecidableEq, Repr, Inhabited
+
 /-- builtins that call a script function back through `callFunction` on the same VM -/
 inductive Wrap where
   | each | map | filter  -- object/list.go: `return Errorf(err.Error())`
   | call                 -- builtins.Call:  `return object.Errorf(err.Error())`
   | sorted               -- builtins.Sorted: `return object.TypeErrorf(sortErr.Error())`
   | try_                 -- builtins.Try: a non-fatal error is kept as `lastErr`, evaluation goes on
+  /-- a host-provided builtin that calls the script function back with a callee context of
+      kind `cc` and hands an error of the callback on unchanged (`object.NewError(err)`).
+      `emptyPop` is a prophecy bit (each site of a shape executes at most once): when the
+      halt test stops code under this callee context although the context reports no error,
+      `callFunction` goes on to `vm.pop()` the "result" of the abandoned frame — `true` = some
+      such pop finds the VM's stack empty (Go panic `index out of range [-1]`), `false` = every
+      pop finds a value (the callback "returns" whatever was on top of the stack). -/
+  | host (cc : Cc) (emptyPop : Bool)
   deriving DecidableEq, Repr, Inhabited
 
 /-- what is known about an error travelling up: it still *is* the context's error
-    (`errors.Is(err, ctx.Err())`), or only its text survived in a fresh error value -/
+    (`errors.Is(err, ctx.Err())`), only its text survived in a fresh error value, or it is the
+    Go panic of a pop from the empty stack (recovered by Run/Call: `panic: runtime error: index
+    out of range [-1]` — neither the context's error nor its text) -/
 inductive Err where
-  | ctx | msg
+  | ctx | msg | panic
   deriving DecidableEq, Repr, Inhabited
 
 /-- program shapes (continuation style) -/
@@ -74,7 +97,9 @@ def afterPrim : Prim → Prog → Prog
 /-- what a callback-carrying builtin does with an error from its callback:
     `some e'` = it raises `e'`, `none` = swallowed -/
 def wrapErr : Wrap → Err → Option Err
+  | _, .panic => some .panic      -- a Go panic unwinds through every builtin (none recovers)
   | .try_, _ => none
+  | .host _ _, e => some e
   | _, _ => some .msg
 
 inductive St where
@@ -95,6 +120,66 @@ structure Thread where
 def St.isFin : St → Bool
   | .fin _ => true
   | _ => false
+
+/-! ### the halt test of `eval` and the context it consults
+
+`eval(ctx)` starts every instruction with `if atomic.LoadInt32(&vm.halt) == 1 { return
+ctx.Err() }`.  `ctx` is the context `eval` WAS HANDED: for the main code the run's own
+context, for a callback the context the builtin passed to `callFunction`.  The DECISION to
+stop reads only the flag; the consulted context only chooses the value returned. -/
+
+/-- result of the halt test -/
+inductive Poll where
+  | go                   -- flag down: the instruction executes
+  | stop (err : Bool)    -- `return ctx.Err()`; `err` = the consulted context reports an error
+  | lower                -- lower the flag and execute the instruction (NOT in the code as it is)
+  deriving DecidableEq, Repr, Inhabited
+
+/-- the code as it is: `calleeErr` (has the context handed to this `eval` fired?) does not
+    enter the decision -/
+def pollImpl (halt calleeErr : Bool) : Poll := if halt then .stop calleeErr else .go
+
+/-- a variant that trusts the consulted context ("the flag is not meant for me when my own
+    context is live"): what the property forbids — see `Props.pollTrusting_not_honoured` -/
+def pollTrusting (halt calleeErr : Bool) : Poll :=
+  if halt then (if calleeErr then .stop true else .lower) else .go
+
+/-! what `pollImpl` and `haltedT` assume about the text of vm/vm.go (hand-written from the
+pinned tree; the extractor regenerates the same facts on every run, `Ties.lean` compares) -/
+
+/-- the halt test: `if atomic.LoadInt32(&vm.halt) == 1 { return ctx.Err() }` -/
+def expectHaltTestCond : String := "atomic.LoadInt32(&vm.halt) == 1"
+def expectHaltTestBody : List String := ["return ctx.Err()"]
+/-- only `start` (clears the flag; its watcher raises it) and `resetForNewCode` write it -/
+def expectHaltWriters : List String := ["resetForNewCode", "start"]
+/-- `callFunction(ctx context.Context, …)` runs `vm.eval(ctx)`: the context consulted by a
+    callback's polls is the one the builtin handed over; `initContext` registers
+    `vm.callFunction` as the public call function -/
+def expectCallFunctionFirstParam : String := "ctx context.Context"
+def expectCallFunctionEvalArg : String := "ctx"
+def expectRegisteredCallFunc : String := "vm.callFunction"
+
+/-- the innermost enclosing host callback that was given a detached callee context (every
+    context derived further in is detached as well), with its prophecy bit; `none` = the code
+    the thread is executing was handed a context that fires with the run's -/
+def detachedBy : List (Wrap × Prog) → Option Bool
+  | [] => none
+  | (.host .detached e, _) :: _ => some e
+  | _ :: fs => detachedBy fs
+
+/-- what a thread does when the halt test of its current `eval` finds the flag raised
+    (`pollImpl true _ = .stop _`): the frame is abandoned in every case.  Consulted context
+    fired (`detachedBy = none`): `ctx.Err()` is raised.  Consulted context live: `eval`
+    returns nil, `callFunction` pops a "result" — the callback returns normally to its
+    builtin with a junk value, or the pop panics. -/
+def haltedT (t : Thread) : Thread :=
+  match detachedBy t.frames with
+  | none => { t with st := .raising .ctx }
+  | some true => { t with st := .raising .panic }
+  | some false =>
+    match t.frames with
+    | [] => { t with st := .raising .ctx }     -- unreachable: `detachedBy [] = none`
+    | (_, k) :: fs => { t with st := .run k, frames := fs }
 
 /-- One step of one thread; `c` = the context has fired.  Returns the new thread state and
     the body of a function it spawned, if any.  Every instruction polls `halt` first
@@ -119,19 +204,19 @@ def stepT (c : Bool) (t : Thread) : Thread × Option (Nat × Prog) :=
     match t.frames with
     | [] => ({ t with st := .fin none }, none)
     | (_, k) :: fs =>
-      if t.halt then ({ t with st := .raising .ctx }, none)
+      if t.halt then (haltedT t, none)
       else ({ t with st := .run k, frames := fs }, none)
   | .run (.compute k) =>
-    if t.halt then ({ t with st := .raising .ctx }, none) else ({ t with st := .run k }, none)
+    if t.halt then (haltedT t, none) else ({ t with st := .run k }, none)
   | .run .spin =>
-    if t.halt then ({ t with st := .raising .ctx }, none) else (t, none)
+    if t.halt then (haltedT t, none) else (t, none)
   | .run (.block pr k) =>
-    if t.halt then ({ t with st := .raising .ctx }, none) else ({ t with st := .blocked pr k }, none)
+    if t.halt then (haltedT t, none) else ({ t with st := .blocked pr k }, none)
   | .run (.cb w body k) =>
-    if t.halt then ({ t with st := .raising .ctx }, none)
+    if t.halt then (haltedT t, none)
     else ({ t with st := .run body, frames := (w, k) :: t.frames }, none)
   | .run (.spawn id body k) =>
-    if t.halt then ({ t with st := .raising .ctx }, none)
+    if t.halt then (haltedT t, none)
     else ({ t with st := .run k }, some (id, body))
 
 structure Cfg where
@@ -256,6 +341,63 @@ def noLossy : Prog → Bool
   | .block p k => primEffect p == some .ctx && noLossy k
   | .cb _ _ _ => false
   | .spawn _ _ k => noLossy k
+
+/-- outside spawned functions: no host callback with a detached callee context (guard of the
+    finding "the halt test returns the error of the context the callee was handed") -/
+def noDetached : Prog → Bool
+  | .done => true
+  | .compute k => noDetached k
+  | .spin => true
+  | .block _ k => noDetached k
+  | .cb w body k => (match w with
+      | .host .detached _ => false
+      | _ => true) && noDetached body && noDetached k
+  | .spawn _ _ k => noDetached k
+
+/-! ### domain of the Impl model for detached callee contexts
+
+Under a detached callee context the blocking primitives `select` on the Done channel of the
+context THEY were handed, which by the host's choice never fires, a function spawned there
+inherits that context, and `sorted`/`map`/`filter` go on to inspect the junk value an
+abandoned callback "returned".  None of that is modelled: inside the body of a host callback
+with a detached context the model covers computation, loops, and the callbacks of host
+builtins, `each`, `call` and `try`, nested to any depth (`wf`; the oracle rejects other
+shapes, the generator does not produce them). -/
+
+/-- code that may run under a detached callee context -/
+def computeOnly : Prog → Bool
+  | .done => true
+  | .compute k => computeOnly k
+  | .spin => true
+  | .block _ _ => false
+  | .cb w body k => (match w with
+      | .host _ _ => true
+      | .each => true
+      | .call => true
+      | .try_ => true
+      | _ => false) && computeOnly body && computeOnly k
+  | .spawn _ _ _ => false
+
+def wf : Prog → Bool
+  | .done => true
+  | .compute k => wf k
+  | .spin => true
+  | .block _ k => wf k
+  | .cb w body k => (match w with
+      | .host .detached _ => computeOnly body
+      | _ => true) && wf body && wf k
+  | .spawn _ body k => wf body && wf k
+
+/-- set the prophecy bit of every host callback of the shape -/
+def setPop (b : Bool) : Prog → Prog
+  | .done => .done
+  | .compute k => .compute (setPop b k)
+  | .spin => .spin
+  | .block pr k => .block pr (setPop b k)
+  | .cb w body k => .cb (match w with
+      | .host cc _ => .host cc b
+      | w => w) (setPop b body) (setPop b k)
+  | .spawn id body k => .spawn id (setPop b body) (setPop b k)
 
 /-! ### evaluations on a VM that has been used before (`Run`, `Call`, `RunCode` again)
 
